@@ -123,8 +123,8 @@ ENGINES = [
      "kind_free_text": "TLC safety+liveness of the bisection design; batch trace validation of recorded poisson() calls"},
     {"name": "trap", "path": "harness/engines/trap.py + spec/Trap.tla, TrapDefs.tla, Spokes.tla, Rat.tla", "serves_properties": ["C20"],
      "kind_free_text": "TLC sweep of rational (G, a) grid and spoke assemblies + replay on trap_grad/min_trap_grad/spokes_grad"},
-    {"name": "alg_protocol", "path": "harness/engines/alg_protocol.py + harness/drivers/alg_driver.py + spec/AlgLoop.tla, spec/AlgLoopTrace.tla", "serves_properties": ["C15", "C02"],
-     "kind_free_text": "TLC model checking of the iteration protocol; graph walks drive real Alg/App objects with hooks; batch trace validation of driver and test-suite executions"},
+    {"name": "alg_protocol", "path": "harness/engines/alg_protocol.py + harness/drivers/alg_driver.py + spec/AlgLoop.tla, AlgLoopTrace.tla, NestedRuns.tla, NestedTrace.tla", "serves_properties": ["C15", "C02"],
+     "kind_free_text": "TLC model checking of the iteration protocol and of the nesting design (frames of App.run / Alg.update across objects); graph walks drive real Alg/App objects with hooks; batch trace validation of driver and test-suite executions per object (AlgLoopTrace) and as whole interleaved streams (NestedTrace)"},
     {"name": "linop_algebra", "path": "harness/engines/linop.py + spec/LinopAlgebra.tla (CMat, ElementMaps, Shape)", "serves_properties": ["C01", "C02", "C03", "C04"],
      "kind_free_text": "TLC exhaustive over sessions with the linop API (themes atoms/algebra/stack) + S->C replay of every distinct entry and rejected call"},
     {"name": "index_maps", "path": "harness/engines/index_maps.py + spec/IndexMaps.tla", "serves_properties": ["C09", "C02"],
@@ -165,7 +165,7 @@ MANIFEST_TEXT = {
 NOT_APPLICABLE = {}
 
 # engines whose SPEC-tagged disagreements (conformance to the specification beyond the listed properties) are reported by `./check extra`
-EXTRA_ENGINES = [("splitting", "splitting", "run")]
+EXTRA_ENGINES = [("splitting", "splitting", "run"), ("alg_protocol", "alg_protocol", "run")]
 
 MANIFEST_TEXT["C18"] = {
     "text": "PoissonSearch.tla models the slope bisection on a float lattice with an arbitrary (non-monotone) acceleration function; TLC checks OkIsWithinTol and the liveness property Terminates (the loop without the collapse test is kept as a negative control that must fail). poisson() is run on the real code with _poisson wrapped under a watchdog; every call (probes as slope ranks + integer facts about the mask, RNG state crc, reproducibility memo) is validated by TLC against PoissonTrace.tla.",
